@@ -15,9 +15,11 @@ variable {α : Type}
 
 /-! ### hypotheses about KK / CKK (proved elsewhere) -/
 
+/-- validity of the 2-way search `snp`/`rnp` call (`ckk2` = `ckkF … 2 …`, the code after fix F11);
+    discharged by `CKKF.ckkF_isPartition` in PrtpyProofs/CKKFSwitch.lean (`CKKValid.ckkValid`) -/
 def CkkValid (v nm : α → Nat) [BEq α] : Prop :=
-  ∀ (k : Nat) (items : List α) (fuel : Nat) (b : Bins α), 0 < k → items ≠ [] →
-    ckk v nm k true items fuel = .ok b → IsPartition v items k b
+  ∀ (items : List α) (fuel : Nat) (b : Bins α), items ≠ [] →
+    ckkF v nm 2 true items fuel = .ok b → IsPartition v items 2 b
 
 def CkkGenValid (v nm : α → Nat) [BEq α] : Prop :=
   ∀ (k : Nat) (items : List α) (bound : Option Nat) (fuel : Nat) (ys : List (Bins α)), 0 < k → items ≠ [] →
@@ -420,7 +422,7 @@ theorem ckk2_valid {v nm : α → Nat} [BEq α] (hckk : CkkValid v nm) {items : 
   split at h
   · cases h
   · rename_i hne
-    exact hckk 2 items fuel two (by omega) (by simpa using hne) h
+    exact hckk items fuel two (by simpa using hne) h
 
 theorem snpRec_valid {v nm : α → Nat} [BEq α] [LawfulBEq α] (hckk : CkkValid v nm) (items : List α) (k fuel : Nat)
     (cur : Nat) : ∀ (prior best : Bins α) (rem : List α) (r : Bins α),
